@@ -310,7 +310,27 @@ fn precedence_trees(tape: &[u32], st: &mut Stats) -> CaseResult {
     vars_used(&tree, &mut used);
     let vals: Vec<V> = used.iter().map(|i| vals_all[*i].clone()).collect();
     let ops = val_ops();
-    let reference = eval_with_ops(&tree, &table, &ops, &vals_all);
+    // the assumption "flagged operators are associative and commutative on the operands" holds for
+    // small integers only: an intermediate error value or an integer beyond 2^24 (e.g. 2<<30) means that
+    // a regrouping of checked integer + or * may legitimately turn an overflow error into a value
+    let mut beyond = false;
+    let reference = eval_with_ops_watch(&tree, &table, &ops, &vals_all, &mut |v: &V| match v {
+        Val::Int(i) if (*i as i64).abs() > (1 << 24) => beyond = true,
+        Val::Error(_) => beyond = true,
+        _ => {}
+    });
+    if beyond {
+        st.excluded("an intermediate value is an error value or an integer beyond 2^24 (flagged operators are not associative there)");
+        // still: no parser may panic on the text
+        let text2: &str = &text;
+        if let Err(p) = guard(|| {
+            let _ = exmex::parse_val::<i32, f64>(text2).map(|e| e.eval(&vals));
+            let _ = exmex::DeepEx::<V, exmex::ValOpsFactory<i32, f64>, exmex::ValMatcher>::parse(text2).map(|e| e.eval(&vals));
+        }) {
+            return Err(fail("C16/precedence/panic", format!("`{text}` panics: {p}"), json!({"text": text})));
+        }
+        return Ok(());
+    }
     if facts.equal_prio_mixed && st.nontrivial(&text) && st.want_sample() {
         st.sample(json!({"text": text, "expected": show(&reference)}));
     }
@@ -348,7 +368,7 @@ pub fn def() -> PropDef {
         assumptions: vec![
             "unspecified on purpose: float / int-zero, scalar-minus/div-array orientation, arrays of different length, && || on non-bools, ordering of bools, int ^ float, non-bool conditions of `if`, `!=` on mismatched kinds, float functions of an int, out-of-range component index",
             "Error == Error regardless of the message; floats within 2 ulp, NaN == NaN",
-            "precedence trees use small integers and bools, on which every operator flagged commutative is associative and commutative",
+            "precedence trees use small integers and bools, on which every operator flagged commutative is associative and commutative; trees with an intermediate error value or an integer beyond 2^24 (2<<30 ...) are not judged, counted",
         ],
         subs: vec![
             SubCheck {
